@@ -6,6 +6,17 @@ C20 — the public surface of `pyplumio/filters.py` as the translator finds it T
 filters the model has.  A new, removed or renamed public factory, a changed parameter list, a parameter that
 gains a default (tolerance, min_calls, seconds …), a factory whose object stops being a `Filter`, overrides
 `__eq__`, becomes hashable, or stops comparing equal to its own callback breaks one of these lemmas by name.
+
+What is content and what is not (round-8 audit, item 14).  CONTENT: the four table pins above the `Filter.__eq__`
+section (`factories_are_the_modelled_ones`, `factory_parameters_pinned`, `every_factory_returns_a_plain_filter`,
+`public_classes_pinned`: kernel-checked statements about what reflection finds in today's `filters.py`) and
+`findEntry_first` / `findEntry_none` (a property of `list.remove` / `in` over the model's `==`).
+BY CONSTRUCTION of the hand model `FObj.eqMethod` (Model/FiltersEq.lean — three lines written next to the Python
+`__eq__`): `eq_ignores_kind`, `eq_callable`, `eq_other` are `rfl`, and `eq_refl` / `eq_symm` / `eq_trans` are facts
+about `Nat` equality; they are readings of the model, not theorems about `filters.py`.  That the model's `__eq__` is
+the code's rests on `every_factory_returns_a_plain_filter` (probe: every factory's object uses `Filter.__eq__`, is
+unhashable and equals its own callback) + correspondence (harness/c20.py `eq_probe`: real filter objects compared with
+filters, callables and non-callables in both operand orders, `list.remove`, `in`).
 -/
 namespace PlumVerif.C20
 
@@ -47,7 +58,8 @@ theorem public_classes_pinned :
     Gen.filterClasses = [("Filter", "Filter", "unhashable", "abstract", [("callback", "-")], "async")] := by
   unfold Gen.filterClasses; rfl
 
-/-! ### `Filter.__eq__` -/
+/-! ### `Filter.__eq__` — readings of the hand model `FObj.eqMethod` (by construction; content = the probe pin above +
+correspondence `eq_probe`) -/
 
 /-- equality of two filter objects looks at the callbacks only: neither the factory, nor its parameters, nor the
 state of the filters matter -/
@@ -73,19 +85,39 @@ theorem eq_trans (a b c : FObj) (h1 : a.eq (.filter b) = true) (h2 : b.eq (.filt
   simp only [FObj.eq, FObj.eqMethod, Option.getD_some, beq_iff_eq] at *
   omega
 
-/-- `unsubscribe(name, cb)` on a list of subscribers finds the FIRST entry whose callback is `cb`, filter-wrapped or not -/
+/-- `unsubscribe(name, cb)` on a list of subscribers finds the FIRST entry whose callback is `cb`, filter-wrapped or not:
+entry `i` exists and MATCHES (a filter around `c`, or the callable `c` itself), and no earlier entry does -/
 theorem findEntry_first (l : List Operand) (c : Nat) (i : Nat) (h : findEntry l (.callable c) = some i) :
+    (∃ e, l[i]? = some e ∧
+      (match e with | .filter f => f.cb = c | .callable a => a = c | .other => False)) ∧
     ∀ j, j < i → ∀ e, l[j]? = some e →
       (match e with | .filter f => f.cb ≠ c | .callable a => a ≠ c | .other => True) := by
-  intro j hj e he
   rw [findEntry, List.findIdx?_eq_some_iff_getElem] at h
-  obtain ⟨hi, _, hall⟩ := h
-  have hjl : j < l.length := by omega
-  have := hall j hj
-  have hej : l[j] = e := by
-    have := List.getElem?_eq_getElem hjl
-    rw [this] at he; exact Option.some.inj he
-  rw [hej] at this
+  obtain ⟨hi, hmatch, hall⟩ := h
+  refine ⟨⟨l[i], List.getElem?_eq_getElem hi, ?_⟩, ?_⟩
+  · generalize l[i] = e at hmatch
+    cases e with
+    | filter f => simpa [FObj.eq, FObj.eqMethod] using hmatch
+    | callable a => simpa using hmatch
+    | other => simp at hmatch
+  · intro j hj e he
+    have hjl : j < l.length := by omega
+    have := hall j hj
+    have hej : l[j] = e := by
+      have := List.getElem?_eq_getElem hjl
+      rw [this] at he; exact Option.some.inj he
+    rw [hej] at this
+    cases e with
+    | filter f => simpa [FObj.eq, FObj.eqMethod] using this
+    | callable a => simpa using this
+    | other => trivial
+
+/-- the converse direction: nothing is found only when NO entry matches -/
+theorem findEntry_none (l : List Operand) (c : Nat) (h : findEntry l (.callable c) = none) :
+    ∀ e ∈ l, (match e with | .filter f => f.cb ≠ c | .callable a => a ≠ c | .other => True) := by
+  intro e he
+  rw [findEntry, List.findIdx?_eq_none_iff] at h
+  have := h e he
   cases e with
   | filter f => simpa [FObj.eq, FObj.eqMethod] using this
   | callable a => simpa using this
